@@ -936,9 +936,25 @@ def _is_assert_raise(t):
     return head(t) == "raise" and head(strip(t[1])) == "call" and strip(strip(t[1])[1]) == ("glob", "builtins.AssertionError")
 
 
+def _plain_iterable(it):
+    """Iterating over list(X) / tuple(X) visits the elements of X in order: for the purpose of iteration the copy is X."""
+    x = strip(it)
+    while head(x) == "call" and strip(x[1]) in (("glob", "builtins.list"), ("glob", "builtins.tuple")) and len(x[2]) == 1 and not x[3] \
+            and head(strip(x[2][0])) not in ("param", "lparam", "acc", "phi", "after", "attr", "glob"):
+        # (a bare name is kept: a loop over list(d) may be a snapshot of something the body changes)
+        x = strip(x[2][0])
+    return x if x is not strip(it) else it
+
+
 def small_rewrites(t):
     from .ssa import apply_lam
     h = head(t)
+    if h == "citer" and len(t) == 4 and _plain_iterable(t[3]) is not t[3]:
+        return (t[0], t[1], t[2], _plain_iterable(t[3]))
+    if h == "elem" and len(t) == 3 and _plain_iterable(t[2]) is not t[2]:
+        return (t[0], t[1], _plain_iterable(t[2]))
+    if h in ("fold", "floop", "bfold", "bfloop") and _plain_iterable(t[3]) is not t[3]:
+        return t[:3] + (_plain_iterable(t[3]),) + t[4:]
     if h == "lam":
         # eta:  lambda *a, **k: f(*a, **k)  ==  f      (also lambda x, y: f(x, y))
         body = strip(t[3])
@@ -963,6 +979,10 @@ def small_rewrites(t):
             r = apply_lam(f, t[2], dict(t[3]))
             if r is not None:
                 return r
+        if head(f) == "attr" and f[2] in ("endswith", "startswith", "upper", "lower", "strip") and is_const(strip(f[1])) and isinstance(strip(f[1])[2], str) \
+                and not t[3] and all(is_const(strip(a)) and isinstance(strip(a)[2], str) for a in t[2]) and len(t[2]) <= 1:
+            # methods of constant strings:  'CDR1A'.endswith('A')
+            return const(getattr(strip(f[1])[2], f[2])(*[strip(a)[2] for a in t[2]]))
         if head(f) == "glob":
             n = f[1]
             if n in ("numpy.ones", "numpy.zeros", "numpy.empty") and t[3]:
@@ -995,6 +1015,16 @@ def small_rewrites(t):
                 cid = ("#mapcontains", repr(strip_all(xs))[:60])
                 ce = ("citer", cid, 0, xs)
                 return ("comp", "gen", ("cmp", "in", ce, S_), ((ce, ()),), cid)
+            if n == "builtins.sorted" and t[2] and head(strip(t[2][0])) == "call" and strip(strip(t[2][0])[1]) in (("glob", "builtins.list"), ("glob", "builtins.tuple")) \
+                    and len(strip(t[2][0])[2]) == 1 and not strip(t[2][0])[3]:
+                return ("call", t[1], (strip(t[2][0])[2][0],) + tuple(t[2][1:]), t[3])      # sorted(list(X)) == sorted(X)
+            if n in ("builtins.all", "builtins.any") and len(t[2]) == 1 and not t[3]:
+                # all(f(w) for w in (a, b, c))  ==  f(a) and f(b) and f(c)   (a comprehension over a short tuple / list display)
+                c_ = strip(t[2][0])
+                if head(c_) == "comp" and c_[1] in ("list", "gen", "set") and len(c_[3]) == 1 and not c_[3][0][1] and head(strip(c_[3][0][0][3])) in ("tuple", "list") \
+                        and 1 <= len(strip(c_[3][0][0][3])[1]) <= 8 and not any(head(strip(x_)) == "star" for x_ in strip(c_[3][0][0][3])[1]):
+                    parts = tuple(subst(c_[2], {c_[3][0][0]: x_}) for x_ in strip(c_[3][0][0][3])[1])
+                    return parts[0] if len(parts) == 1 else (("and" if n == "builtins.all" else "or"), parts)
             if n == "functools.partial" and t[2] and not any(k == "**" for k, _ in t[3]):
                 # functools.partial(f, *a, **k)  ==  lambda *args, **kwargs: f(*a, *args, **kwargs, **k)
                 lamid = ("#partial", repr(strip_all(t))[:80])
@@ -1009,6 +1039,9 @@ def small_rewrites(t):
                 x = strip(t[2][0])
                 if head(x) == "sub" and strip(x[2]) == ("slice", NONE, NONE, const(-1)):
                     return ("call", t[1], (x[1],), ())
+            if n == "builtins.set" and len(t[2]) == 1 and not t[3] and head(strip(t[2][0])) == "comp" and strip(t[2][0])[1] in ("list", "gen", "set"):
+                x = strip(t[2][0])
+                return ("comp", "set", x[2], x[3], x[4])        # set([f(x) for ...]) == {f(x) for ...}
             if n == "builtins.list" and len(t[2]) == 1 and not t[3] and head(strip(t[2][0])) == "comp" and strip(t[2][0])[1] in ("list", "gen"):
                 x = strip(t[2][0])
                 return ("comp", "list", x[2], x[3], x[4])
@@ -1238,6 +1271,14 @@ def canon_folds(t):
                 return [(conds, strip(stp[3])[1][0])]
             return None
         empty_list = head(init) == "list" and not init[1]
+        if empty_list and head(step) == "bin" and step[1] == "+" and strip(step[2]) == acc and head(strip(step[3])) == "call" \
+                and strip(strip(step[3])[1]) in (("glob", "builtins.list"), ("glob", "builtins.tuple")) and len(strip(step[3])[2]) == 1 and not strip(step[3])[3] \
+                and not any(y == acc for y in walk(step[3])):
+            # out.extend(G(x))  ==  out + list(G(x))  ==  out + [z for z in G(x)]
+            G_ = strip(step[3])[2][0]
+            cid2 = ("#ext", d, repr(strip_all(G_))[:40])
+            ce2 = ("citer", cid2, 0, G_)
+            step = ("bin", "+", step[2], ("comp", "list", ce2, ((ce2, ()),), cid2))
         if empty_list and head(step) == "bin" and step[1] == "+" and strip(step[2]) == acc and head(strip(step[3])) == "comp" and strip(step[3])[1] == "list" \
                 and not any(y == acc for y in walk(step[3])) and not any(y == acc for y in walk(it)):
             # for x in A: for y in B(x): out.append(f(x, y))   ==   [f(x, y) for x in A for y in B(x)]
